@@ -206,7 +206,7 @@ func c09Chain(w *W) {
 	if calibrate {
 		nclient = 1
 	}
-	tran := w.simFallback([]string{"inproc", "sim", "tcp", "ipc", "tls+tcp"}[w.Choose(simrt.SShape, 5)])
+	tran := w.simFallback([]string{"inproc", "sim", "tcp", "ipc", "tls+tcp", "ws", "wss"}[w.Choose(simrt.SShape, 7)])
 	nmsg := 1 + w.Choose(simrt.SShape, 5)
 	w.SetShape("family", fam.name)
 	w.SetShape("devices", d)
